@@ -13,6 +13,9 @@ PtsP1 == { [D |-> 1, x |-> << <<S1(1), S1(2)>> >>],
 PtsP1small == { [D |-> 1, x |-> << <<S1(1), S1(2)>> >>],
                 [D |-> 2, x |-> << <<S2(3, 1), S2(5, -1)>> >>] }
 PtsD2 == { [D |-> 2, x |-> << <<S2(3, 1), S2(5, -1)>> >>] }
+PtsTwo == { [D |-> 1, x |-> << <<S1(3), S1(5), S1(2), S1(-1)>> >>],
+            [D |-> 2, x |-> << <<S2(3, 1), S2(5, -1), S2(2, 2), S2(-1, 1)>> >>] }
+OpsTwo == {"get", "set", "mul", "add", "dot"}
 PtsP2D2 == { [D |-> 2, x |-> << <<S2(3, 1), S2(5, -1)>>, <<S2(2, -1), S2(-1, 2)>> >>] }
 PtsP2 == { [D |-> 1, x |-> << <<S1(1), S1(2)>>, <<S1(1), S1(2)>> >>],
            [D |-> 2, x |-> << <<S2(3, 1), S2(5, -1)>>, <<S2(2, -1), S2(-1, 2)>> >>] }
